@@ -112,7 +112,13 @@ func bufprop(r *simkit.Run, prop string) {
 		opts = append(opts, buffer.ErrorHandler(utils.ErrorHandlerFunc(func(w http.ResponseWriter, req *http.Request, err error) {
 			w.Header().Add("X-Own-Err-Handler", "1")
 			(&buffer.SizeErrHandler{}).ServeHTTP(w, req, err)
-		})), buffer.Verbose(rapid.Bool().Draw(rt, "verbose")))
+		})))
+	}
+	if rapid.IntRange(0, 2).Draw(rt, "verbose") == 0 {
+		opts = append(opts, buffer.Verbose(true))
+		if rapid.Bool().Draw(rt, "rendering-logger") {
+			opts = append(opts, buffer.Logger(simkit.SlowLogger{}))
+		}
 	}
 	fails := map[string]string{}
 	note := func(kind, format string, args ...any) {
@@ -184,6 +190,7 @@ func bufprop(r *simkit.Run, prop string) {
 			}
 			sc.readHow = rapid.IntRange(0, 2).Draw(rt, "read-how")
 			sc.closeBody = rapid.Bool().Draw(rt, "close-body")
+			sc.writeHow = rapid.SampledFrom([]int{0, 0, 1, 2, 3}).Draw(rt, "write-how")
 			if ex.writerKind != "" {
 				sc.tryHijack = rapid.Bool().Draw(rt, "try-hijack")
 			}
